@@ -1105,3 +1105,25 @@ func fileWriterRoles(P *Program) *writerRoles {
 	r.ok = r.sync != "" && r.schema != "" && r.compression != "" && r.compressor != ""
 	return r
 }
+
+// callersOf: the call instructions in the module whose static callee is fn (a method called through an
+// interface is not found: such a function has no listed callers).
+func callersOf(P *Program, fn *ssa.Function) []ssa.CallInstruction {
+	var out []ssa.CallInstruction
+	for _, g := range P.ModuleFuncs() {
+		for _, cs := range callsIn(g) {
+			if cs.Static == fn {
+				out = append(out, cs.Instr)
+			}
+		}
+	}
+	return out
+}
+
+// pkgPathOf: the import path of the package a named type is declared in ("" for other types).
+func pkgPathOf(t types.Type) string {
+	if n, ok := types.Unalias(t).(*types.Named); ok && n.Obj().Pkg() != nil {
+		return n.Obj().Pkg().Path()
+	}
+	return ""
+}
